@@ -30,6 +30,15 @@ func seed() int64 {
 
 func main() {
 	debug.SetGCPercent(400)
+	// The whole-circuit compiled systems are several GB each; with a relaxed GC percentage the
+	// heap could outgrow the machine. A soft limit at half of the physical memory makes the
+	// collector work harder instead (it never fails an allocation).
+	if b, err := os.ReadFile("/proc/meminfo"); err == nil {
+		var kb int64
+		if _, err := fmt.Sscanf(string(b), "MemTotal: %d kB", &kb); err == nil && kb > 0 {
+			debug.SetMemoryLimit(kb * 1024 / 2)
+		}
+	}
 	logger.Disable()
 	if len(os.Args) < 2 {
 		usage()
